@@ -208,8 +208,9 @@ class CanonicalizePreservesValue(Harness):
     loop_bound = 16
     _concrete = None
     PREFIXES = [('deci', 'x'), ('d', 'x'), ('deca', 'y'), ('da', 'y')]
-    STEMS = ['at', 't', 'a', 'ts']
-    QUERIES = ['dat', 'dt', 'da', 'dats', 'dts', 'decit', 'decaat', 'at', 'ats', 'daa', 'dda', 'atss', 'tss', 'dtss', 'tsss', 'ta', 'dta', 'tas']
+    STEMS = ['at', 't', 'a', 'ts', 'te']
+    QUERIES = ['dat', 'dt', 'da', 'dats', 'dts', 'decit', 'decaat', 'at', 'ats', 'daa', 'dda', 'atss', 'tss', 'dtss', 'tsss', 'ta', 'dta', 'tas',
+               'tes', 'dtes', 'ates']
     # an alias (a unit whose definition is another unit's name) and quantity-like entries: the loader files a quantity
     # `name ? unit` under `definitions` but not under `units`, so `lookup` never sees it; their names here also have a
     # prefix+unit / plural reading (as `mass` = m+as+s has in the bundled file)
